@@ -10,7 +10,7 @@ VARIABLES S, hist,
           T,        \* the twin: same events, but no time ever passes (nothing is discarded) - reference for C11 (AgeInvisible)
           mon       \* ghost: the action life-cycle monitor of C06 (L2), [m |-> action -> "started"|"stopped"|"finished", bad |-> what went wrong]
 vars == <<S, hist, T, mon>>
-SView == <<[S EXCEPT !.nev = 0], [T EXCEPT !.nev = 0], mon>>           \* VIEW: states that differ only in the history / the event counter are one state
+SView == <<[S EXCEPT !.nev = 0, !.res = <<>>, !.round = 0], [T EXCEPT !.nev = 0, !.res = <<>>, !.round = 0], mon>>           \* VIEW: states that differ only in the history / the event counter are one state
 Alphabet == MCP.alphabet           \* sequence of [name, args (seq of <<key, value>>)]
 
 (* ---- L2: one Start per action, Stop only for an action that was started and is neither stopped nor finished ---- *)
@@ -161,4 +161,22 @@ NoDangling == \A k \in 1..Len(S.flows) :
    (S.flows[k].status # "GONE" /\ S.flows[k].activated > 0 /\ S.flows[k].parent # 0) => S.flows[S.flows[k].parent].status # "GONE"
 ScopeActionsExist == \A k \in 1..Len(S.flows) : Listening(S.flows[k]) =>
    \A q \in 1..Len(S.flows[k].scopes) : \A a \in RangeS(S.flows[k].scopes[q][3]) : S.actions[a].status # "DELETED"
+
+(* ------------------------------------------------------------------ C05 at specification level *)
+(* every conflict resolution of the last call, read from the ghost log S.res: per interaction loop one group; the head that
+   was picked is not beaten by any competitor (padded score chains); a competitor proceeds iff it wants the identical
+   event (or has a failure handler to go to), every other competitor's flow is stopped; one event is emitted per group *)
+C05S == \A r \in 1..Len(S.res) :
+   LET rec == S.res[r]  n == Len(rec.cands)
+       pk  == CHOOSE i \in 1..n : rec.cands[i].kh = rec.picked IN
+   /\ \E i \in 1..n : rec.cands[i].kh = rec.picked
+   /\ \A q \in 1..Len(S.res) : (q # r /\ S.res[q].round = rec.round) => S.res[q].loop # rec.loop      \* one group per loop and round
+   /\ \A i \in 1..n : VecCmp(rec.cands[i].scores, rec.cands[pk].scores, 1, TRUE) <= 0
+   /\ rec.cands[pk].adv
+   /\ \A i \in 1..n : i # pk =>
+         IF rec.cands[i].ev = rec.cands[pk].ev THEN rec.cands[i].adv
+         ELSE IF rec.cands[i].catch THEN rec.cands[i].adv
+         ELSE ~rec.cands[i].adv /\ rec.cands[i].stopped
+   /\ rec.nout >= 1
+   /\ Cardinality({i \in 1..Len(S.out) : S.out[i].name = rec.cands[pk].ev.name /\ S.out[i].args = rec.cands[pk].ev.args}) >= 1
 =============================================================================
